@@ -262,6 +262,7 @@ pub fn run(run: &Run) {
         }
         let opts = BfsOptions { max_states: Some(if thorough { 20_000_000 } else { 2_000_000 }), ..Default::default() };
         let (stats, viols) = bfs(&g, vec![init], &opts);
+        run.sample_paths(sl.name, &stats.sample_paths);
         ts += stats.states;
         tt += stats.transitions;
         ti += stats.impl_steps;
